@@ -27,10 +27,10 @@ def rand_system(rng, default_prob=0.2):
     return pp.Opts(
         max_grad=rng.choice([28, 40, 80]), grad_unit='mT/m',
         max_slew=rng.choice([100, 150, 200]), slew_unit='T/m/s',
-        grad_raster_time=rng.choice([10e-6, 20e-6, 5e-6, 4e-6]),
-        rf_raster_time=rng.choice([1e-6, 2e-6]),
-        adc_raster_time=1e-7,
-        block_duration_raster=rng.choice([10e-6, 20e-6, 5e-6, 4e-6]),
+        grad_raster_time=rng.choice([10e-6, 20e-6, 5e-6, 4e-6, 6.4e-6, 2.5e-6]),
+        rf_raster_time=rng.choice([1e-6, 2e-6, 1e-6, 5e-7]),
+        adc_raster_time=rng.choice([1e-7, 1e-7, 5e-8, 2.5e-8]),
+        block_duration_raster=rng.choice([10e-6, 20e-6, 5e-6, 4e-6, 5e-7]),
         rf_dead_time=rng.choice([0, 100e-6, 20e-6]),
         rf_ringdown_time=rng.choice([0, 20e-6, 40e-6]),
         adc_dead_time=rng.choice([0, 10e-6, 20e-6]),
@@ -64,6 +64,8 @@ class FGen(seqgen.Gen):
         self.gr = self.sys.grad_raster_time
         self.rfr = self.sys.rf_raster_time
         self.br = self.sys.block_duration_raster
+        # length unit of connected blocks: a common multiple of the gradient raster, the block raster and 20 us
+        self.U = math.lcm(int(round(self.gr * 1e9)), int(round(self.br * 1e9)), 20000) * 1e-9
         # chain edge values recur (so that earlier connected events can be re-used where the chain is at the same value)
         self.palette = [seqgen.Gen.amp(self) for _ in range(self.rng.choice([2, 3, 3]))]
         self.pool = []          # connected gradient events created so far (re-usable: same data -> same library id)
@@ -95,19 +97,38 @@ class FGen(seqgen.Gen):
         need = abs(a1 - a0) / self.sys.max_slew
         return max(1, math.ceil(need / self.gr + 1e-9))
 
+    def twin_value(self, v):
+        """a value that differs from v below the print precision of a %g column (6 significant digits), or just above
+        it: whole numbers with 7+ digits get a neighbouring whole number, others a relative change of 1e-7 .. 4e-6"""
+        r = self.rng
+        if v != 0 and float(v).is_integer() and abs(v) >= 1e6:
+            return float(v + r.choice([1, 2, -1, 3, 10]))
+        if v == 0:
+            return 0.0
+        return v * (1 + r.choice([1e-7, 3e-7, -2e-7, 4e-6, 0.0]))
+
     def trap(self, ch):
         import pypulseq as pp
         r = self.rng
-        self._twin_ok = True
-        try:
-            a = self.amp()
-        finally:
-            self._twin_ok = False
-        n0 = self.ramp_n(0, a)
-        rise = dense(r, self.gr, tmax=(n0 + r.choice([0, 3, 40])) * self.gr, nmin=n0)
-        fall = rise if r.random() < 0.5 else dense(r, self.gr, tmax=(n0 + r.choice([0, 3, 40])) * self.gr, nmin=n0)
-        return pp.make_trapezoid(ch, amplitude=a, rise_time=rise, flat_time=dense(r, self.gr), fall_time=fall,
-                                 delay=dense(r, self.gr) if r.random() < 0.6 else 0, system=self.sys)
+        prev = getattr(self, '_traps', [])
+        if prev and r.random() < 0.3:
+            # the twin of an earlier trapezoid: same timing, amplitude changed below / around the print precision
+            a0, rise, flat, fall, delay = r.choice(prev)
+            a = self.twin_value(a0)
+            if abs(a) > self.sys.max_grad:
+                a = a0
+            self.n_value_twins = getattr(self, 'n_value_twins', 0) + 1
+        else:
+            a = seqgen.Gen.amp(self)
+            if r.random() < 0.35:
+                a = float(round(a))                       # whole numbers (7 digits from 1e6 Hz/m on)
+            n0 = self.ramp_n(0, a)
+            rise = dense(r, self.gr, tmax=(n0 + r.choice([0, 3, 40])) * self.gr, nmin=n0)
+            fall = rise if r.random() < 0.5 else dense(r, self.gr, tmax=(n0 + r.choice([0, 3, 40])) * self.gr, nmin=n0)
+            flat = dense(r, self.gr)
+            delay = dense(r, self.gr) if r.random() < 0.6 else 0
+        self._traps = (prev + [(a, rise, flat, fall, delay)])[-6:]
+        return pp.make_trapezoid(ch, amplitude=a, rise_time=rise, flat_time=flat, fall_time=fall, delay=delay, system=self.sys)
 
     def ext0(self, ch):
         """extended trapezoid 0 -> ... -> 0 with a delay; corner times on every multiple of the gradient raster"""
@@ -133,16 +154,42 @@ class FGen(seqgen.Gen):
     def adc(self):
         import pypulseq as pp
         r = self.rng
-        dwell = r.randint(10, 200) * 1e-7 if r.random() < 0.7 else r.choice([1e-6, 2e-6, 5e-6, 1e-5, 2.5e-6])
+        prev = getattr(self, '_adcs', [])
+        if prev and r.random() < 0.3:
+            a = copy.deepcopy(r.choice(prev))              # twin: one %g column changed around the print precision
+            if r.random() < 0.5:
+                a.freq_offset = self.twin_value(a.freq_offset)
+            else:
+                a.phase_offset = self.twin_value(a.phase_offset)
+            self.n_value_twins = getattr(self, 'n_value_twins', 0) + 1
+            return a
+        ar = self.sys.adc_raster_time
+        # dwell on EVERY multiple of the ADC raster (odd multiples of 50 / 25 ns rasters included)
+        dwell = r.randint(int(round(1e-6 / ar)), int(round(20e-6 / ar))) * ar if r.random() < 0.75 else r.choice([1e-6, 2e-6, 5e-6, 1e-5, 2.5e-6])
         n = r.randint(4, 256)
         delay = self.sys.adc_dead_time + dense(r, self.rfr)
-        return pp.make_adc(n, dwell=dwell, delay=delay, freq_offset=r.choice([0, 100.5, -31250.25]),
-                           phase_offset=r.choice([0, 0.5, math.pi]), system=self.sys)
+        a = pp.make_adc(n, dwell=dwell, delay=delay, freq_offset=r.choice([0, 100.5, -31250.25, 1500001.0, -2500003.0]),
+                        phase_offset=r.choice([0, 0.5, math.pi]), system=self.sys)
+        self._adcs = (prev + [copy.deepcopy(a)])[-4:]
+        return a
 
     def rf(self):
+        r = self.rng
+        prev = getattr(self, '_rfs', [])
+        if prev and r.random() < 0.3:
+            e = copy.deepcopy(r.choice(prev))
+            if r.random() < 0.5:
+                e.freq_offset = self.twin_value(e.freq_offset)
+            else:
+                e.phase_offset = self.twin_value(e.phase_offset)
+            self.n_value_twins = getattr(self, 'n_value_twins', 0) + 1
+            return [e]
         evs = super().rf()
         if len(evs) == 1:      # without slice gradient: any delay on the RF raster (below 1 s: KF-5)
-            evs[0].delay = self.sys.rf_dead_time + dense(self.rng, self.rfr)
+            evs[0].delay = self.sys.rf_dead_time + dense(r, self.rfr)
+            if r.random() < 0.3:
+                evs[0].freq_offset = r.choice([1500001.0, 1500002.0, -2500003.0, 1234567.0])
+            self._rfs = (prev + [copy.deepcopy(evs[0])])[-4:]
         return evs
 
     def trig(self):
@@ -167,9 +214,10 @@ class FGen(seqgen.Gen):
     # ---- connected gradients ----
     def conn_duration(self, pairs, at_least=0.0):
         """block length (multiple of T0) long enough to ramp every (first, last) pair at <= 45 % of max slew"""
-        need = max([abs(l - f) / (0.45 * self.sys.max_slew) for f, l in pairs] + [4 * T0, at_least])
-        n = max(6, math.ceil(need / T0 - 1e-9)) + self.rng.randint(0, 12)
-        return n * T0
+        U = self.U
+        need = max([abs(l - f) / (0.45 * self.sys.max_slew) for f, l in pairs] + [80e-6, at_least])
+        n = max(math.ceil(120e-6 / U), math.ceil(need / U - 1e-9)) + self.rng.randint(0, max(1, int(round(240e-6 / U))))
+        return n * U
 
     def feasible(self, f, l, D):
         return abs(l - f) / D <= 0.45 * self.sys.max_slew
@@ -432,6 +480,7 @@ def random_sequence(rng, system=None, n_blocks=None, use_block_cache=True, histo
     random_definitions(rng, seq)
     seq._gen_reused = getattr(g, 'n_reused', 0)
     seq._gen_twins = getattr(g, 'n_twins', 0)
+    seq._gen_value_twins = getattr(g, 'n_value_twins', 0)
     return seq, stored, system
 
 
@@ -546,16 +595,28 @@ def used_reader(rng, sysr, tmpdir):
     import pypulseq as pp
     s2 = pp.Sequence(sysr, use_block_cache=rng.random() < 0.6)
     if rng.random() < 0.6:
-        primer, n, _ = random_sequence(rng, n_blocks=rng.randint(2, 5))
+        primer, n, _ = random_sequence(rng, n_blocks=rng.randint(2, 10))
         if n:
             fn = os.path.join(tmpdir, 'primer.seq')
             primer.write(fn, create_signature=False, check_timing=False)
             s2.read(fn)
     else:
         g = FGen(rng, sysr)
-        for _ in range(rng.randint(1, 4)):
+        for _ in range(rng.randint(1, 8)):
             try:
                 s2.add_block(*g.free_block())
             except Exception:  # noqa: BLE001
                 pass
+    # ... and it has been USED: blocks decoded (the block cache, when on, is warm), timing checked, waveforms exported
+    try:
+        u = rng.random()
+        if u < 0.5:
+            for b in list(s2.block_events):
+                s2.get_block(b)
+        elif u < 0.8:
+            s2.check_timing()
+        else:
+            s2.waveforms_and_times()
+    except Exception:  # noqa: BLE001
+        pass
     return s2
